@@ -172,3 +172,45 @@ func ZZ_C01_ArrayMax() {
 	zzvf.Assert(in.Available() == 0, "shortarray-max/consumed-exactly")
 	zzvf.Reach("arraymax")
 }
+
+// results are independent values: what one read returned is not altered by later reads on the same
+// reader (a decoded byte string that shares storage with the reader's internals would be overwritten
+// by the next fixed-width field). Two byte strings of 0..9 bytes (blob, 16-bit prefixed or raw), a
+// long and an int in between, all kept until the stream is consumed and only then compared.
+//vf: paths=20000
+func ZZ_C01_ResultsIndependent() {
+	n1, n2 := zzvf.Choose(10), zzvf.Choose(10)
+	p1, p2 := zzvf.Bytes(n1), zzvf.Bytes(n2)
+	l, i := zzvf.Int64(), zzvf.Int32()
+	kind := zzvf.Choose(3)
+	out := NewDataOutputX()
+	switch kind {
+	case 0:
+		out.WriteBlob(p1)
+	case 1:
+		out.WriteShortBytes(p1)
+	default:
+		out.WriteBytes(p1)
+	}
+	out.WriteLong(l)
+	out.WriteBlob(p2)
+	out.WriteInt(i)
+	in := NewDataInputX(out.ToByteArray())
+	var r1 []byte
+	switch kind {
+	case 0:
+		r1 = in.ReadBlob()
+	case 1:
+		r1 = in.ReadShortBytes()
+	default:
+		r1 = in.ReadBytes(int32(n1))
+	}
+	rl := in.ReadLong()
+	r2 := in.ReadBlob()
+	ri := in.ReadInt()
+	zzvf.Assert(zzvf.Same(r1, p1), "independent/first-byte-string-intact-after-later-reads")
+	zzvf.Assert(zzvf.Same(r2, p2), "independent/second-byte-string-intact-after-later-reads")
+	zzvf.Assert(zzvf.And(rl == l, ri == i), "independent/numbers")
+	zzvf.Assert(in.Available() == 0, "independent/consumed-exactly")
+	zzvf.Reach("independent")
+}
